@@ -690,12 +690,45 @@ theorem sorter_rounds_canonical (shuffle : String → String → String) :
     | cons q qs ih => intro st h; exact ih _ (sorter_refines_canonical shuffle st h q.1 q.2).2
   exact (sorter_refines_canonical shuffle _ (hpre pre s hc) r.1 r.2).1
 
+/-! ### the measurement reads the CURRENT results (state a hook might keep about a result across rounds)
+
+Between two observations of one window a staged result can be replaced by a re-check on a higher block: the same unit of
+work (work id), another check block / hash / gas / prices / perform data — another encoded length.  The model measures an
+observation with `SizeInfo.encLen` on the results it carries now. -/
+
+/-- the number of performables — and with it the observation — depends on the encoder only through the lengths of the
+current candidates: whatever an encoder says about OTHER results (earlier versions of the same work among them) is
+irrelevant -/
+theorem performablesOf_congr (ctx : Ctx) (lim : Limits) (maxLen : Nat) (staged : List CheckResult)
+    (inflight : CheckResult → Bool) (si si' : SizeInfo) (hb : si.base = si'.base)
+    (h : ∀ r ∈ canonical ctx staged inflight, si.encLen r = si'.encLen r) :
+    performablesOf ctx lim maxLen staged inflight si = performablesOf ctx lim maxLen staged inflight si' := by
+  have hs : sizeOf si (canonical ctx staged inflight) = sizeOf si' (canonical ctx staged inflight) := by
+    funext k
+    have : ((canonical ctx staged inflight).take k).map si.encLen = ((canonical ctx staged inflight).take k).map si'.encLen :=
+      List.map_congr_left (fun r hr => h r (List.mem_of_mem_take hr))
+    simp only [sizeOf, this, hb]
+  simp only [performablesOf, performablesK, hs, hb]
+
 /-! ### non-vacuity -/
 
 private def exR (w : String) : CheckResult :=
   { (default : CheckResult) with workID := w, eligible := true, gas := 1 }
 private def exCtx : Ctx := { F := 1, utg := fun _ => .log, wg := fun _ _ => "", key := fun w => w, uid := fun r => r.workID }
 private def exLim : Limits := ⟨2, 5, 5, 256, 100, 50, 20⟩
+
+/-- `performablesOf_congr` is sharp: the measurement does depend on the current candidates' lengths.  Measuring candidates
+with the length of the results they REPLACED (same work ids, shorter encodings) keeps a list whose real encoding exceeds
+the limit.  Five candidates of 50 bytes each, base 10, limit 200: the real measurement (262 > 200) keeps two (109); with
+the stale lengths (36 bytes each: 192) all five stay. -/
+theorem stale_lengths_break_fit :
+    let c := [exR "a", exR "b", exR "c", exR "d", exR "e"]
+    let lim := { exLim with obsPerformables := 5 }
+    let real : SizeInfo := ⟨10, fun _ => 50⟩
+    let stale : SizeInfo := ⟨10, fun _ => 36⟩
+    performablesK lim 200 real c = 2 ∧ sizeOf real c (performablesK lim 200 real c) ≤ 200 ∧
+    performablesK lim 200 stale c = 5 ∧ ¬ sizeOf real c (performablesK lim 200 stale c) ≤ 200 := by
+  decide
 
 /-- two stores with the same three candidates inserted in different orders (and a different in-flight fourth) -/
 example :
